@@ -57,6 +57,10 @@ def build(case: dict[str, Any], with_transforms: bool, raw: bool = False) -> tup
             objectives=ObjectiveScaler(case["oscale"]) if case["use_o"] else None,
             nonlinear_constraints=ConstraintScaler(case["cscale"]) if case["use_c"] and c_n else None,
         )
+    if case.get("var_object") and not raw:  # the variables section handed in as an already validated object (user-domain values)
+        from ropt.config.enopt import VariablesConfig
+
+        cfg["variables"] = VariablesConfig.model_validate(cfg["variables"])
     config = cfg if raw else EnOptConfig.model_validate(cfg, context=transforms)
     a = np.array(case["slopes"], dtype=np.float64).reshape(r_n, k_n + c_n, n)
     b = np.array(case["offsets"], dtype=np.float64).reshape(r_n, k_n + c_n)
@@ -215,7 +219,7 @@ def hypothesis_shard(item: dict[str, Any]) -> Collector:
         weights = [draw(st.sampled_from([1.0, 2.0, 0.5])) for _ in range(r_n)]
         fail = sorted(draw(st.sets(st.integers(0, r_n - 1), min_size=1))) if draw(st.integers(0, 4)) == 0 else []
         return {
-            "fail": fail, "rmin": draw(st.integers(0, r_n)), "basic": draw(st.integers(0, 3)) == 0,
+            "fail": fail, "rmin": draw(st.integers(0, r_n)), "basic": draw(st.integers(0, 3)) == 0, "var_object": draw(st.integers(0, 3)) == 0,
             "n": n, "R": r_n, "P": p_n, "K": k_n, "C": c_n, "L": l_n, "x": x, "lb": lb, "ub": ub, "types": types,
             "magnitudes": [draw(st.sampled_from([0.01, 0.1, 0.6])) for _ in range(n)],
             "boundary": [draw(st.integers(1, 3)) for _ in range(n)],
